@@ -44,7 +44,8 @@ func (e *engine) Info() core.Info {
 		SchedMeasure:  "distinct neighbour-order permutation sequences handed to A* (hash of all permutations drawn in a run)",
 		TimeStatement: "no clock exists in route; simulated time = number of AddLink/ShortestRoute operations",
 		Assumptions: []string{
-			"networks as the property states: no self-loops, no parallel links, positive finite speeds; coordinates in [1,9] so that the relative merge tolerance is unambiguous",
+			"networks as the property states: no self-loops, no parallel links, positive finite speeds; coordinates in [1,9] (lattices up to 90 long) times a per-axis scale between 1e-12 and 1e6, so that the relative merge tolerance is unambiguous and the squares and products the library forms stay inside the float64 range (at scales around 1e-158 or 1e150 the unchanged library already returns wrong routes: observed in an experiment, not claimed)",
+			"overlapping ShortestRoute calls (allowed by the package documentation) are checked in interleaved pairs: each must return what it returns alone, and a map-typed field of the network that both touch, one of them writing, is reported as a data race (accesses announced by tools/hookfill; other kinds of shared variable are not tracked)",
 			"the Dijkstra model and polyline-length computation of the oracle are correct; costs compared with 1e-9 relative tolerance; any minimum-cost chain is accepted",
 		},
 		QuickRuns: 95000, ThoroughRuns: 6000000, TokenScheduled: true, QuickWallS: 75, ThoroughWallS: 1200,
